@@ -361,7 +361,7 @@ theorem K_handleLogon {c : Ctx} (hc : CtxOK c) {s : Sess} (hk : K c s) {m : OutM
   · generalize hs1 : (if (!s.cfg.initiator && s.cfg.refreshOnLogon) = true then s.emit Obs.refresh else s) = s1
     have h1 : SExt s s1 := by rw [← hs1]; sx_peel
     simp only []
-    rw [verifyAppImpl_pass s1 _ (pf_noEmpty hc hw), pf_cb hc hw]
+    rw [verifyAppImpl_pass s1 _ (pf_valid hc (h1.cfg.trans hk.cfg) hw), pf_cb hc hw]
     have h2 : SExt s (s1.emit (cbObs s1 (toIn c.pcfg m))) := h1.trans (sext_emit_cb_admin s1 c.pcfg m ha)
     generalize hs2 : s1.emit (cbObs s1 (toIn c.pcfg m)) = s2 at h2
     have hcfg2 : s2.cfg = c.cfg := h2.cfg.trans hk.cfg
